@@ -2,6 +2,7 @@
 The judge, part 2: extension tower and curve points against the Spec.
 -/
 import JediVerif.Driver.Judge1
+import JediVerif.Impl.TowerIO
 
 namespace Jedi.Driver
 
@@ -24,6 +25,9 @@ structure TowerOps (T : Type) where
   /-- components in *wire/byte* order for big-endian I/O: most significant first -/
   beComps : T → List Fq
   ofBeComps : List Fq → T
+  /-- the statement-by-statement models of `T::write_big_endian` / `T::read_big_endian` (`Impl/TowerIO.lean`) -/
+  writeBE : T → List UInt8
+  readBE : List UInt8 → T
 
 def judgeTower {T : Type} (o : TowerOps T) (opn : String) (out : List String) : P Bool := do
   match opn with
@@ -49,13 +53,16 @@ def judgeTower {T : Type} (o : TowerOps T) (opn : String) (out : List String) : 
   | "be" =>
     let a ← o.rd
     let bytes := (o.beComps a).flatMap fun c => toBytesBE 48 c.val
-    expectToks opn (bytesToHex bytes :: o.str a) out; pure true
+    expectToks opn (bytesToHex bytes :: o.str a) out
+    -- the Impl models: write, then read back what was written
+    expectToks (opn ++ " (model)") (bytesToHex (o.writeBE a) :: o.str (o.readBE (o.writeBE a))) out; pure true
   | "rdbe" =>
     let bs ← nextBytes
     let n := o.degree
     if bs.length != 48 * n then throw "rdbe: wrong length"
     let comps := (List.range n).map fun i => Fin.ofNat q (ofBytesBE ((bs.drop (48 * i)).take 48) % 2 ^ 381)
-    expectToks opn (o.str (o.ofBeComps comps)) out; pure true
+    expectToks opn (o.str (o.ofBeComps comps)) out
+    expectToks (opn ++ " (model)") (o.str (o.readBE bs)) out; pure true
   | "rand" =>
     let stream ← nextBytes
     -- components are drawn in memory order c0, c1, …, i.e. reverse byte order
@@ -73,7 +80,8 @@ def towerQ2 : TowerOps Fq2 :=
   { pfx := "f2_", rd := nextFq2, str := strQ2, add := Q2.add, sub := Q2.sub, mul := Q2.mul, neg := Q2.neg,
     inv := Q2.inv, one := 1, zero := 0, beq := (· == ·), degree := 2,
     beComps := fun a => [a.c1, a.c0],
-    ofBeComps := fun l => ⟨l.getD 1 0, l.getD 0 0⟩ }
+    ofBeComps := fun l => ⟨l.getD 1 0, l.getD 0 0⟩,
+    writeBE := Impl.fq2WriteBE, readBE := Impl.fq2ReadBE }
 
 def q6Be (a : Fq6) : List Fq := [a.c2.c1, a.c2.c0, a.c1.c1, a.c1.c0, a.c0.c1, a.c0.c0]
 def q6OfBe (l : List Fq) : Fq6 :=
@@ -82,13 +90,15 @@ def q6OfBe (l : List Fq) : Fq6 :=
 def towerQ6 : TowerOps Fq6 :=
   { pfx := "f6_", rd := nextFq6, str := strQ6, add := Q6.add, sub := Q6.sub, mul := Q6.mul, neg := Q6.neg,
     inv := Q6.inv, one := 1, zero := 0, beq := (· == ·), degree := 6,
-    beComps := q6Be, ofBeComps := q6OfBe }
+    beComps := q6Be, ofBeComps := q6OfBe,
+    writeBE := Impl.fq6WriteBE, readBE := Impl.fq6ReadBE }
 
 def towerQ12 : TowerOps Fq12 :=
   { pfx := "f12_", rd := nextFq12, str := strQ12, add := Q12.add, sub := Q12.sub, mul := Q12.mul, neg := Q12.neg,
     inv := Q12.inv, one := 1, zero := 0, beq := (· == ·), degree := 12,
     beComps := fun a => q6Be a.c1 ++ q6Be a.c0,
-    ofBeComps := fun l => ⟨q6OfBe (l.drop 6), q6OfBe (l.take 6)⟩ }
+    ofBeComps := fun l => ⟨q6OfBe (l.drop 6), q6OfBe (l.take 6)⟩,
+    writeBE := Impl.fq12WriteBE, readBE := Impl.fq12ReadBE }
 
 /-- exponent of the map into the cyclotomic subgroup. -/
 def cycExponent : Nat := (q ^ 6 - 1) * (q ^ 2 + 1)
@@ -97,8 +107,12 @@ def judgeTowerSpecial (op : String) (out : List String) : P Bool := do
   match op with
   | "f2_nonres" => let a ← nextFq2; let _ ← next; expectToks op (strQ2 (Q2.mulXi a)) out; pure true
   | "f6_nonres" => let a ← nextFq6; let _ ← next; expectToks op (strQ6 (Q6.mulV a)) out; pure true
-  | "f2_norm" => let a ← nextFq2; expectToks op [hexQ (Q2.norm a)] out; pure true
-  | "f2_leg" => let a ← nextFq2; expectToks op [toString (Fq2.legendre a)] out; pure true
+  | "f2_norm" =>
+    let a ← nextFq2; expectToks op [hexQ (Q2.norm a)] out
+    expectToks (op ++ " (model)") [hexQ (Impl.fq2Norm a)] out; pure true
+  | "f2_leg" =>
+    let a ← nextFq2; expectToks op [toString (Fq2.legendre a)] out
+    expectToks (op ++ " (model)") [toString (Impl.fq2Legendre a)] out; pure true
   | "f2_sqrt" =>
     let a ← nextFq2
     match out with
@@ -108,6 +122,8 @@ def judgeTowerSpecial (op : String) (out : List String) : P Bool := do
         let y : Fq2 := ⟨← unmontQ r0, ← unmontQ r1⟩
         if Fq2.legendre a != -1 then
           if y * y != a then throw "f2_sqrt: result squared is not the input"
+        -- the Impl model (two runs of the `exponentiate<Fq2, BigInt<384>>` loop): exact equality, squares or not
+        if Impl.fq2SquareRoot a != y then throw "f2_sqrt: result differs from the model fq2SquareRoot"
         pure true
       | _, _ => throw "f2_sqrt: bad output"
     | _ => throw "f2_sqrt: malformed output"
